@@ -434,6 +434,13 @@ class Check:
             if f["id"] not in self.known:
                 self.known[f["id"]] = (f, viol)
             return False
+        # many inputs that fail at the same site in the same way: keep the first 25 (the verdict needs one)
+        k = (viol.get("kind"), viol.get("site") or viol.get("cause") or viol.get("mechanism") or "")
+        self._per_site = getattr(self, "_per_site", {})
+        self._per_site[k] = self._per_site.get(k, 0) + 1
+        if self._per_site[k] > 25 and k[1]:
+            self.suppressed = getattr(self, "suppressed", 0) + 1
+            return True
         self.violations.append(viol)
         return True
 
